@@ -14,7 +14,16 @@
    entries as an association list; values are None / str / bytes / int.  The
    model follows the Python branch order: which exception is raised first, what
    is consumed before an assertion fails, and that send() changes
-   application_state before it forwards. *)
+   application_state before it forwards.
+
+   iter_text() / iter_bytes() return async generators.  The application may keep
+   such a generator open and interleave any other call between two of its steps
+   (`async for m in ws.iter_text(): ... await ws.close() ...`), so the state
+   also holds the generators created so far ([its]): [IterOpen] creates one
+   (an async generator runs nothing until it is first stepped), [IterStep i] is
+   one `__anext__()` of the i-th, [IterClose i] its `aclose()`.  The atomic calls
+   [IterText n] / [IterBytes n] (create, take at most n items, close) are kept;
+   they are a derived form (Proofs.v: steps_until_is_atomic_iter). *)
 From Coq Require Import List NArith ZArith Bool.
 From Baize Require Import Lib.Wire.
 Import ListNotations.
@@ -80,7 +89,13 @@ Inductive ev :=
 | Recv (m : option msg)         (* self._receive() was called and returned m *)
 | Fwd (m : msg) (a : wstate).   (* self._send(m) was called while application_state = a *)
 
-Record st := St { cs : wstate; aps : wstate }.
+(* an async generator made by iter_text() / iter_bytes().  Not yet started and
+   suspended at its `yield` behave alike (every step begins with
+   `await self.receive_text()`), so one flag is enough: finished or not. *)
+Inductive kind := KText | KBytes.
+Record iter := Iter { ikind : kind; idone : bool }.
+
+Record st := St { cs : wstate; aps : wstate; its : list iter }.
 
 (* ---------- the monad ---------- *)
 
@@ -101,8 +116,8 @@ Notation "m ;;; f" := (bind m (fun _ => f)) (at level 61, right associativity).
 
 Definition get_cs : M wstate := fun s sc => (inr (cs s), s, sc, []).
 Definition get_aps : M wstate := fun s sc => (inr (aps s), s, sc, []).
-Definition set_cs (c : wstate) : M unit := fun s sc => (inr tt, St c (aps s), sc, []).
-Definition set_aps (a : wstate) : M unit := fun s sc => (inr tt, St (cs s) a, sc, []).
+Definition set_cs (c : wstate) : M unit := fun s sc => (inr tt, St c (aps s) (its s), sc, []).
+Definition set_aps (a : wstate) : M unit := fun s sc => (inr tt, St (cs s) a (its s), sc, []).
 Definition assert (b : bool) : M unit := if b then ret tt else raise AssertionError.
 
 (* await self._receive() *)
@@ -218,6 +233,19 @@ Fixpoint ws_iter (k : list N) (n : nat) (s : st) (sc : list msg)
       end
   end.
 
+(* ---------- generators kept open across calls ---------- *)
+
+Definition key_of (kd : kind) : list N := match kd with KText => k_text | KBytes => k_bytes end.
+
+(* the i-th generator has finished (returned, raised, or was closed) *)
+Fixpoint finish (i : nat) (l : list iter) : list iter :=
+  match l, i with
+  | [], _ => []
+  | x :: r, O => Iter (ikind x) true :: r
+  | x :: r, S i' => x :: finish i' r
+  end.
+Definition finish_st (i : nat) (s : st) : st := St (cs s) (aps s) (finish i (its s)).
+
 (* ---------- application calls ---------- *)
 
 Inductive call :=
@@ -230,14 +258,19 @@ Inductive call :=
 | SendText (d : value)
 | SendBytes (d : value)
 | Close (code reason : value)
-| Send (m : msg).               (* raw send of an arbitrary message *)
+| Send (m : msg)                (* raw send of an arbitrary message *)
+| IterOpen (kd : kind)          (* g = ws.iter_text() / ws.iter_bytes(); g is number len(its) *)
+| IterStep (i : nat)            (* await g_i.__anext__() *)
+| IterClose (i : nat).          (* await g_i.aclose() *)
 
 Inductive outcome :=
 | ONone                         (* returned None *)
 | OMsg (m : msg)                (* receive() returned the message *)
 | OVal (v : value)              (* receive_text / receive_bytes returned *)
 | OExn (e : exn)
-| OIter (items : list value) (t : term).
+| OIter (items : list value) (t : term)
+| OStop                         (* __anext__ raised StopAsyncIteration *)
+| ONoIter.                      (* the case names a generator that was never created *)
 
 Definition lift_unit (r : (exn + unit) * st * list msg * list ev) : outcome * st * list msg * list ev :=
   match r with
@@ -259,6 +292,43 @@ Definition lift_iter (r : (list value * term) * st * list msg * list ev) : outco
   | ((items, t), s, sc, tr) => (OIter items t, s, sc, tr)
   end.
 
+(* g = ws.iter_<kind>(): nothing runs yet *)
+Definition ws_iter_open (kd : kind) (s : st) (sc : list msg) : outcome * st * list msg * list ev :=
+  (ONone, St (cs s) (aps s) (its s ++ [Iter kd false]), sc, []).
+
+(* one __anext__():
+     try:
+         while True:
+             yield await self.receive_text()
+     except WebSocketDisconnect:
+         pass
+   the value is yielded and the generator stays suspended; WebSocketDisconnect is
+   caught, the generator returns: StopAsyncIteration; any other exception (the
+   AssertionError of an application that is not CONNECTED, RuntimeError, KeyError)
+   propagates out of __anext__ and the generator is finished.  A finished
+   generator raises StopAsyncIteration without running anything. *)
+Definition ws_iter_step (i : nat) (s : st) (sc : list msg) : outcome * st * list msg * list ev :=
+  match nth_error (its s) i with
+  | None => (ONoIter, s, sc, [])
+  | Some it =>
+      if idone it then (OStop, s, sc, [])
+      else
+        match ws_receive_typed (key_of (ikind it)) s sc with
+        | (inr v, s1, sc1, t1) => (OVal v, s1, sc1, t1)
+        | (inl (WebSocketDisconnect _ _), s1, sc1, t1) => (OStop, finish_st i s1, sc1, t1)
+        | (inl e, s1, sc1, t1) => (OExn e, finish_st i s1, sc1, t1)
+        end
+  end.
+
+(* aclose(): a generator that was never started is just marked closed, a
+   suspended one gets GeneratorExit at its yield, which the except clause does
+   not catch; a finished one is left alone.  Nothing else runs. *)
+Definition ws_iter_close (i : nat) (s : st) (sc : list msg) : outcome * st * list msg * list ev :=
+  match nth_error (its s) i with
+  | None => (ONoIter, s, sc, [])
+  | Some _ => (ONone, finish_st i s, sc, [])
+  end.
+
 Definition step (c : call) (s : st) (sc : list msg) : outcome * st * list msg * list ev :=
   match c with
   | Accept sub => lift_unit (ws_accept sub s sc)
@@ -271,6 +341,9 @@ Definition step (c : call) (s : st) (sc : list msg) : outcome * st * list msg * 
   | SendBytes d => lift_unit (ws_send_bytes d s sc)
   | Close code reason => lift_unit (ws_close code reason s sc)
   | Send m => lift_unit (ws_send m s sc)
+  | IterOpen kd => ws_iter_open kd s sc
+  | IterStep i => ws_iter_step i s sc
+  | IterClose i => ws_iter_close i s sc
   end.
 
 (* ---------- a whole session ---------- *)
@@ -295,7 +368,7 @@ Fixpoint run (calls : list call) (s : st) (sc : list msg) : list obs * st * list
   end.
 
 (* WebSocket.__init__ *)
-Definition init : st := St Connecting Connecting.
+Definition init : st := St Connecting Connecting [].
 
 Definition session (calls : list call) (script : list msg) : list obs * st * list msg :=
   run calls init script.
@@ -306,6 +379,31 @@ Definition final_state (calls : list call) (script : list msg) : st :=
   snd (fst (session calls script)).
 Definition final_rest (calls : list call) (script : list msg) : list msg :=
   snd (session calls script).
+
+(* ---------- the atomic iteration as a derived form ---------- *)
+
+(* step generator i until it stops, at most n times:
+     items = []
+     for _ in range(n):
+         try: items.append(await g.__anext__())
+         except StopAsyncIteration: done
+         except Exception as e: e
+     await g.aclose() *)
+Fixpoint steps_until (i : nat) (n : nat) (s : st) (sc : list msg)
+  : (list value * term) * st * list msg * list ev :=
+  match n with
+  | O => (([], TLimit), finish_st i s, sc, [])
+  | S n' =>
+      match step (IterStep i) s sc with
+      | (OVal v, s1, sc1, t1) =>
+          match steps_until i n' s1 sc1 with
+          | ((items, t), s2, sc2, t2) => ((v :: items, t), s2, sc2, t1 ++ t2)
+          end
+      | (OExn e, s1, sc1, t1) => (([], TExn e), s1, sc1, t1)
+      | (_, s1, sc1, t1) => (([], TDone), s1, sc1, t1)
+      end
+  end.
+
 (* everything that happened at the server interface, in order *)
 Definition full_trace (calls : list call) (script : list msg) : list ev :=
   flat_map o_trace (observations calls script).
